@@ -252,14 +252,15 @@ Definition mkobs (alive : bool) (replies : list reply) (closed : bool) (by_ : li
    in the room whose session was resumed on a new connection; 6 a client whose session
    joined a federated room.  The hub has a media server in all of them, and in all of them
    the room of the bystander has a second member, of user "user9", whose connection was
-   interrupted (the session "@OID@" is kept to be resumed; it is not in the call). *)
+   interrupted (the session "@OID@" is kept to be resumed; it is in the call, the bystander
+   and the senders are not). *)
 Definition pending_id : string := "@PID@".
 Definition offline_id : string := "@OID@".
 Definition offline_user : string := "user9".
 Definition state_of (tag : N) : session_state :=
   let mk k fed pend inroom :=
     {| ss_kind := k; ss_federated := fed; ss_pending := pend; ss_mcu := true; ss_inroom := inroom;
-       ss_offline := [offline_id]; ss_offline_users := [offline_user]; ss_offline_room := inroom; ss_offline_call := false |} in
+       ss_offline := [offline_id]; ss_offline_users := [offline_user]; ss_offline_room := inroom; ss_offline_call := inroom |} in
   match tag with
   | 0%N => mk SNone false [] false
   | 1%N => mk SClient false [] false
